@@ -5,9 +5,9 @@ import gen as G
 
 MODEL_TARGETS = ["model/SchemaJson.vo", "model/Parse.vo", "model/CanonicalForm.vo"]
 COQ_TARGETS = ["props/C09.vo"]
-THEOREMS = [("C09", ["C09_regen", "C09_unnamed_cycle_rejected", "C09_renders_when_wf", "C09_edge_ref", "C09_edge_def"])]
+THEOREMS = [("C09", ["C09_regen", "C09_unnamed_cycle_rejected", "C09_renders_when_wf", "C09_edge_ref", "C09_edge_def", "C09_regen_text_roundtrip", "C09_regen_text_full_names_roundtrip", "C09_text_whitespace_insensitive", "C09_json_text_roundtrip"])]
 PROOF_FILES = ["proofs/SchemaTextProofs.v", "proofs/SchemaJsonDefs.v", "proofs/SchemaJsonGuard.v", "proofs/SchemaJsonCfOk.v", "proofs/SchemaJsonRaw.v",
-               "proofs/SchemaJsonCf.v", "proofs/SchemaJsonSim.v", "proofs/SchemaJsonProofs.v", "props/C09.v"]
+               "proofs/SchemaJsonCf.v", "proofs/SchemaJsonSim.v", "proofs/SchemaJsonProofs.v", "proofs/JsonReadProofs.v", "proofs/JsonReadSchema.v", "props/C09.v"]
 TRUSTED_BASE = [
     "Coq 8.16.1 kernel; no axioms (Print Assumptions: closed)",
     "hand-written models SchemaJson.v (serialize.rs: named node written once then by reference, namespace-relative spelling, generation-counter cycle guard), Parse.v, CanonicalForm.v tied by the correspondence run (JSON text, re-parsed node kinds / logical types / fingerprint, model vs crate)",
